@@ -285,6 +285,15 @@ func roots(w *World, id int64, seen map[int64]bool, out map[int]bool) {
 		out[o.Call] = true
 		return
 	}
+	// the output of a run-once function is shared by every later call by
+	// design; for isolation purposes it is a shared constant
+	w.mu.Lock()
+	once := w.specs[o.Func].Once
+	w.mu.Unlock()
+	if once {
+		out[-1] = true
+		return
+	}
 	for _, f := range o.From {
 		roots(w, f, seen, out)
 	}
